@@ -326,6 +326,42 @@ func (cr *concRun) rpcReader(stop *int32) {
 	}
 }
 
+// guarded runs one case body under a watchdog: a pool that leaves a lock behind blocks
+// the calling goroutine for ever. When the body does not return, the goroutine dump
+// decides: somebody waiting for a lock inside tx_pool = violation, anything else =
+// inconclusive. The stuck goroutine is abandoned.
+func guarded(seconds int, fn func(c *core.Case)) func(c *core.Case) {
+	return func(c *core.Case) {
+		done := make(chan struct{})
+		go func() {
+			defer close(done)
+			c.Guard("case "+c.Group, nil, func() { fn(c) })
+		}()
+		select {
+		case <-done:
+		case <-time.After(time.Duration(seconds) * time.Second):
+			d := goroutineDump()
+			if poolLockWaiter(d) {
+				if len(d) > 20000 {
+					d = d[:20000]
+				}
+				c.Violation("hang:pool-lock", fmt.Sprintf("case made no progress for %ds; a goroutine waits for a tx_pool lock", seconds), map[string]interface{}{"goroutines": d})
+			} else {
+				c.Run.Inconclusive(fmt.Sprintf("watchdog: case %s:%d did not finish within %ds", c.Group, c.I, seconds))
+			}
+		}
+	}
+}
+
+func poolLockWaiter(dump string) bool {
+	for _, g := range strings.Split(dump, "\n\n") {
+		if strings.Contains(g, "mainchain/tx_pool.") && (strings.Contains(g, "RWMutex).Lock") || strings.Contains(g, "RWMutex).RLock") || strings.Contains(g, "Mutex).Lock")) {
+			return true
+		}
+	}
+	return false
+}
+
 func goroutineDump() string {
 	buf := make([]byte, 1<<20)
 	return string(buf[:runtime.Stack(buf, true)])
@@ -443,12 +479,7 @@ func concurrent(c *core.Case) {
 	case <-finished:
 	case <-time.After(240 * time.Second):
 		d := goroutineDump()
-		blocked := false
-		for _, g := range strings.Split(d, "\n\n") {
-			if strings.Contains(g, "mainchain/tx_pool.") && (strings.Contains(g, "RWMutex).Lock") || strings.Contains(g, "RWMutex).RLock") || strings.Contains(g, "Mutex).Lock")) {
-				blocked = true
-			}
-		}
+		blocked := poolLockWaiter(d)
 		if len(d) > 20000 {
 			d = d[:20000]
 		}
